@@ -174,10 +174,10 @@ func (e kfEntry) matches(f finding) bool {
 	if !contains(e.Props, f.Prop) || !contains(e.Variants, f.Config.V) {
 		return false
 	}
-	if e.Class != f.Class {
+	if !contains(strings.Split(e.Class, "|"), f.Class) {
 		return false
 	}
-	if e.Sub != "" && e.Sub != subClass(f.Sub) {
+	if e.Sub != "" && !contains(strings.Split(e.Sub, "|"), subClass(f.Sub)) {
 		return false
 	}
 	if e.Site != "" && !strings.Contains(strings.ReplaceAll(f.Site, " ", "_"), e.Site) {
@@ -209,6 +209,7 @@ type witnessFile struct {
 	Detail  string    `json:"detail,omitempty"`
 	Family  string    `json:"family,omitempty"`
 	Repeats int       `json:"repeats,omitempty"`
+	Extra   string    `json:"extra,omitempty"`
 }
 
 // ---------------- parent ----------------
@@ -234,6 +235,11 @@ func runCheck(p property, tier string, seed int64, workers int) int {
 	os.MkdirAll(work, 0o755)
 	os.MkdirAll(filepath.Join(verifDir, "evidence"), 0o755)
 	os.MkdirAll(filepath.Join(verifDir, "replays"), 0o755)
+	if old, _ := filepath.Glob(filepath.Join(verifDir, "replays", id+"-"+tier+"-*.json")); len(old) > 0 {
+		for _, f := range old {
+			os.Remove(f)
+		}
+	}
 	n := p.NumCases(tier)
 	if workers > n {
 		workers = n
@@ -308,6 +314,9 @@ func runCheck(p property, tier string, seed int64, workers int) int {
 		}(w)
 	}
 	wg.Wait()
+	if id == "C08" {
+		c08RacePhase(tier, seed, &agg)
+	}
 	return finishCheck(p, tier, seed, &agg, start)
 }
 
@@ -406,7 +415,7 @@ func finishCheck(p property, tier string, seed int64, agg *aggregate, start time
 			fmt.Printf("note: witness of %s unparsable; attribution to it is off\n", e.ID)
 			continue
 		}
-		f := finding{Prop: id, Config: w.Config, Class: w.Class, Sub: w.Sub, Site: w.Site, Input: &w.Input, Family: w.Family}
+		f := finding{Prop: id, Config: w.Config, Class: w.Class, Sub: w.Sub, Site: w.Site, Input: &w.Input, Family: w.Family, Extra: w.Extra}
 		still, _ := p.Replay(f)
 		e.Active = still
 		if still {
